@@ -85,8 +85,11 @@ def judge_family(ctx, t, src, tgt, opts, where):
         if not (g <= 1e-8):
             ctx.fail("affine_alignment_is_not_least_squares_optimal", cls=cls, mech=where, gradient=float(g))
         ls = np.linalg.lstsq(a, tgt, rcond=None)[0]
-        if _amax(ls - m) > 1e-6 * scale:
-            ctx.fail("affine_alignment_differs_from_lstsq", cls=cls, mech=where)
+        # (two optimal solutions of a badly conditioned fit differ by cond x round-off: the optimality itself is judged above)
+        cond = float(np.linalg.cond(a / np.abs(a).max(axis=0)))
+        ctx.err("affine_fit_condition_number", cond)
+        if _amax(ls - m) > max(1e-6, 1e-12 * cond ** 2) * scale:
+            ctx.fail("affine_alignment_differs_from_lstsq", cls=cls, mech=where, err=_amax(ls - m), cond=cond)
     elif isinstance(t, mt.AlignmentRotation):
         mirror = bool(opts.get("allow_mirror", False))
         if _amax(L.T @ L - np.eye(d)) > 1e-8 or _amax(tr) > 1e-12:
